@@ -575,7 +575,7 @@ Section Dispatch.
     create E ep ii pspi cf my peer
     = Some (mk_ep E (table E ep ++ [(next_cid E ep, sa_of_core E (fresh_core ii cf my peer pspi spi j (ep_now E ep)))])
                   (S (next_cid E ep)) (confs E ep) (ep_cookie_secret E ep) rest (ep_now E ep) (ep_kops E ep)
-                  (ep_sent E ep) (ep_routed E ep),
+                  (ep_sent E ep) (ep_routed E ep) (ep_status E ep),
             next_cid E ep, sa_of_core E (fresh_core ii cf my peer pspi spi j (ep_now E ep))).
   Proof. intros Ht. unfold create. rewrite Ht. reflexivity. Qed.
 
@@ -651,7 +651,7 @@ Section Dispatch.
     new_sa (inner P s) = None -> st (co (inner P s)) = ST_DELETED -> children (co (inner P s)) = [] ->
     finish E ep cid s
     = mk_ep E (remove_cid E (table E ep) cid) (next_cid E ep) (confs E ep) (ep_cookie_secret E ep) (ep_tape E ep)
-            (ep_now E ep) (ep_kops E ep) (ep_sent E ep) (ep_routed E ep).
+            (ep_now E ep) (ep_kops E ep) (ep_sent E ep) (ep_routed E ep) (ep_status E ep).
   Proof.
     intros Hn Hst Hch. unfold finish. rewrite Hn.
     change (state P s) with (st (co (inner P s))). rewrite Hst.
@@ -676,7 +676,7 @@ Section Dispatch.
     = mk_ep E (table E ep) (S (next_cid E ep)) (confs E ep) (ep_cookie_secret E ep) rest (ep_now E ep) (ep_kops E ep)
             (ep_sent E ep ++ [cookie_datagram (spiZ (be_encode 8 (Z.to_N (h_spi_i h)))) (spiZ spi) (h_id h)
                                                (cookie_for E (ep_cookie_secret E ep) (h_spi_i h) n peer)])
-            (Some (next_cid E ep)).
+            (Some (next_cid E ep)) (ep_status E ep).
   Proof.
     intros Hex Hresp Hini Hid Hm Hconf Htape Hfresh Hload Htr Hbad.
     unfold dispatch. rewrite Hex, Hresp. change (dispatch_is_init_request EX_IKE_SA_INIT (negb false)) with true. cbv iota.
@@ -694,6 +694,8 @@ Section Dispatch.
     rewrite Hm in Hpm. specialize (Hpm Hini Hresp Hex Hid eq_refl eq_refl eq_refl Htr Hbad). cbv zeta in Hpm.
     cbn [set] in Hpm |- *. rewrite Hpm. clear Hpm.
     cbn [leave inner rek_push enter with_inner clear_flags set co]. cbv beta iota zeta.
+    match goal with |- (if Z.eqb (state P ?x) ST_INITIAL then _ else _) = _ =>
+      change (Z.eqb (state P x) ST_INITIAL) with false; cbv iota end.
     cbn [send set]. rewrite finish_deleted_childless; [|reflexivity|reflexivity|reflexivity].
     f_equal; cbn -[be_encode]; try reflexivity.
     - rewrite !(remove_replace E). apply remove_snoc_fresh. exact Hfresh.
@@ -753,7 +755,7 @@ Section Dispatch.
     = timers E (mk_ep E (table E ep) (S (next_cid E ep)) (confs E ep) (ep_cookie_secret E ep) rest tnow []
                       [cookie_datagram (spiZ (be_encode 8 (Z.to_N (h_spi_i h)))) (spiZ spi) (h_id h)
                                        (cookie_for E (ep_cookie_secret E ep) (h_spi_i h) n peer)]
-                      (Some (next_cid E ep))).
+                      (Some (next_cid E ep)) None).
   Proof.
     intros Hex Hresp Hini Hid Hm Hconf Hfresh Hload Htr Hbad. rewrite iteration_eq. cbn [event_step]. f_equal.
     apply (dispatch_cookie_challenge (start E ep tnow (D_bytes spi :: D_num j :: rest)) h my peer m cf spi j rest n
@@ -777,7 +779,7 @@ Section Dispatch.
     halfopen E (table E ep0) <= cookie_threshold ->
     cookie_secret (co (inner P s0)) = None /\ arm E ep0 s0 = s0 /\
     dispatch E ep (Dg h my peer (Some m))
-    = handle E (routed E (with_table E ep0 (replace E (table E ep0) cid s0)) cid) cid s0 m.
+    = handle_fresh E (routed E (with_table E ep0 (replace E (table E ep0) cid s0)) cid) cid s0 m.
   Proof.
     intros Hi Hconf Hc Hload.
     assert (Ha : arm E ep0 s0 = s0).
@@ -787,13 +789,12 @@ Section Dispatch.
     - destruct (dispatch_init_request E ep h my peer m cf ep0 cid s0 Hi Hconf Hc) as (_ & _ & Hd). rewrite Ha in Hd. exact Hd.
   Qed.
 
-  (** ** the boundary of "leaves no IKE_SA behind"
-      The clause holds for requests the shell answers.  An IKE_SA_INIT "request" whose INITIATOR flag is not set, or
-      whose Message ID is not 0, is dropped by process_message / _process_request WITHOUT a reply and WITHOUT ending the
-      IkeSa the dispatcher has just created for it: that entry stays in the table in state INITIAL (no timer ever
-      looks at an INITIAL entry) and counts as half-open from then on - whatever the load and whatever cookie it
-      carries.  So the unrestricted reading of the clause ("every IKE_SA_INIT request without the right cookie ...
-      leaves no IKE_SA behind") is false of the model, with these witnesses. *)
+  (** ** requests the shell ignores
+      An IKE_SA_INIT "request" whose INITIATOR flag is not set, or whose Message ID is not 0, is dropped by
+      process_message / _process_request WITHOUT a reply and without any change of the IkeSa the dispatcher has just
+      created for it.  Before the fix 73b0c79 of /repo that entry stayed in the table in state INITIAL for ever (no
+      timer looks at an INITIAL entry): unbounded half-open state from unauthenticated datagrams.  Now the dispatcher
+      removes an IkeSa that is still INITIAL after process_message: the table is the old one again. *)
   Lemma replace_snoc_fresh (t : list (nat * esa)) cid (s0 s' : esa) :
     (forall x, In x t -> fst x <> cid) -> replace E (t ++ [(cid, s0)]) cid s' = t ++ [(cid, s')].
   Proof.
@@ -823,7 +824,7 @@ Section Dispatch.
     - cbn. split; reflexivity.
   Qed.
 
-  Theorem dispatch_ignored_init_request_stays (ep : endpoint) h my peer m cf spi j rest :
+  Theorem dispatch_ignored_init_request_leaves_nothing (ep : endpoint) h my peer m cf spi j rest :
     h_exch h = EX_IKE_SA_INIT -> h_resp h = false -> p_hdr m = h ->
     find_conf E ep my peer = Some cf ->
     ep_tape E ep = D_bytes spi :: D_num j :: rest ->
@@ -831,7 +832,7 @@ Section Dispatch.
     (h_init h = false \/ h_id h <> 0) ->
     let ep' := dispatch E ep (Dg h my peer (Some m)) in
     ep_sent E ep' = ep_sent E ep /\ ep_kops E ep' = ep_kops E ep /\ ep_tape E ep' = rest /\
-    exists s : esa, table E ep' = table E ep ++ [(next_cid E ep, s)] /\ st (co (inner P s)) = ST_INITIAL.
+    table E ep' = table E ep.
   Proof.
     intros Hex Hresp Hm Hconf Htape Hfresh Hbad ep'. unfold ep', dispatch.
     rewrite Hex, Hresp. change (dispatch_is_init_request EX_IKE_SA_INIT (negb false)) with true. cbv iota.
@@ -843,9 +844,130 @@ Section Dispatch.
         [reflexivity|reflexivity|reflexivity|reflexivity|rewrite Hm; exact Hex|rewrite Hm; exact Hresp|rewrite Hm; exact Hbad|];
       destruct (process_message P s0 mm t) as [s2 reply] eqn:Epm end;
       cbn [fst snd] in Hr, Hin; subst reply; clear Epm; destruct s2 as [i2 ? ? ? ? ? ? ? ? ? ? ? ? ?]; cbn [inner] in Hin; subst i2;
-      unfold leave;
-      unfold finish; cbn -[be_encode replace app]; rewrite app_nil_r, (replace_replace E), replace_snoc_fresh by exact Hfresh;
-      (split; [reflexivity|]); (split; [reflexivity|]); (split; [reflexivity|]); eexists; (split; [reflexivity|reflexivity]).
+      unfold leave; cbn -[be_encode replace app remove_cid]; rewrite app_nil_r, (remove_replace E), remove_snoc_fresh by exact Hfresh;
+      repeat split; reflexivity.
+  Qed.
+
+  (** a request the fresh IkeSa answers by ending (any error: COOKIE required, malformed, no proposal chosen, ...):
+      whatever process_message did, the table is the old one again and no kernel operation was issued *)
+  Theorem dispatch_init_request_ended (ep : endpoint) h my peer (m : pmsg body) cf ep0 cid (s0 : esa) :
+    dispatch_is_init_request (h_exch h) (negb (h_resp h)) = true -> find_conf E ep my peer = Some cf ->
+    create E ep false (be_encode 8 (Z.to_N (h_spi_i h))) cf my peer = Some (ep0, cid, s0) ->
+    (forall x, In x (table E ep) -> fst x <> next_cid E ep) ->
+    let ep1 := routed E (with_table E ep0 (replace E (table E ep0) cid (arm E ep0 s0))) cid in
+    let r := process_message P (enter E ep1 (arm E ep0 s0)) m (ep_now E ep1) in
+    state P (fst r) = ST_DELETED ->
+    table E (dispatch E ep (Dg h my peer (Some m))) = table E ep
+    /\ ep_kops E (dispatch E ep (Dg h my peer (Some m))) = ep_kops E ep
+    /\ ep_tape E (dispatch E ep (Dg h my peer (Some m))) = tape (inner P (fst r)).
+  Proof.
+    intros Hi Hconf Hc Hfresh ep1 r Hst.
+    destruct (dispatch_init_request E ep h my peer m cf ep0 cid s0 Hi Hconf Hc) as (Hcid & Ht0 & ->).
+    destruct (create_facts E _ _ _ _ _ _ _ _ _ Hc) as (_ & _ & _ & Hk0 & Hch0 & Hnew0 & Hst0).
+    rewrite handle_fresh_def. fold ep1. fold r.
+    destruct (leave_facts E ep1 (fst r)) as ([L0 L0'] & L2 & L3 & _).
+    assert (Hs3 : state P (snd (leave E ep1 (fst r))) = ST_DELETED).
+    { change (state P (snd (leave E ep1 (fst r)))) with (st (co (inner P (snd (leave E ep1 (fst r)))))).
+      rewrite L0. exact Hst. }
+    rewrite Hs3. change (Z.eqb ST_DELETED ST_INITIAL) with false. cbv iota. rewrite handle_def. fold ep1. fold r.
+    assert (Hi1 : st (co (inner P (enter E ep1 (arm E ep0 s0)))) = ST_INITIAL).
+    { unfold arm. destruct (dispatch_arm_cookie _); exact Hst0. }
+    destruct (process_message_initial E (enter E ep1 (arm E ep0 s0)) m (ep_now E ep1) Hi1) as (K1 & K2 & K3). fold r in K1, K2, K3.
+    assert (Hch : children (co (inner P (snd (leave E ep1 (fst r))))) = []).
+    { rewrite L0, K2. unfold arm. destruct (dispatch_arm_cookie _); exact Hch0. }
+    assert (Hnew : new_sa (inner P (snd (leave E ep1 (fst r)))) = None).
+    { rewrite L0', K3. unfold arm. destruct (dispatch_arm_cookie _); exact Hnew0. }
+    rewrite (finish_deleted_childless _ cid _ Hnew Hs3 Hch). cbn [table ep_kops ep_tape].
+    destruct (send_facts E (fst (leave E ep1 (fst r))) (snd r)) as (S1 & _ & S3 & _ & S5 & _).
+    rewrite S1, S3, S5, L2, L3, K1.
+    split; [|split].
+    - change (table E ep1) with (replace E (table E ep0) cid (arm E ep0 s0)).
+      rewrite (remove_replace E), Ht0, Hcid. apply remove_snoc_fresh. exact Hfresh.
+    - cbn. rewrite app_nil_r. exact Hk0.
+    - unfold leave. destruct (rek_push (inner P (fst r))); reflexivity.
+  Qed.
+
+  Definition malformed (m : pmsg body) : Prop :=
+    get_payloads m K_SA false = [] \/ get_payloads m K_NONCE false = [] \/ get_payloads m K_KE false = [].
+  Lemma process_message_malformed (s : sa P) m tnow :
+    is_init P s = false -> peer_id P s = 0 ->
+    h_init (p_hdr m) = true -> h_resp (p_hdr m) = false -> h_exch (p_hdr m) = EX_IKE_SA_INIT -> h_id (p_hdr m) = 0 ->
+    st (co (inner P s)) = ST_INITIAL -> cprop (co (inner P s)) = None -> malformed m ->
+    state P (fst (process_message P s m tnow)) = ST_DELETED
+    /\ tape (inner P (fst (process_message P s m tnow))) = tape (inner P s).
+  Proof.
+    intros Hi Hpid Hini Hresp Hex Hid Hst Hcp Hmal.
+    unfold process_message. change (B P) with body. cbv zeta.
+    unfold process_message_decision. rewrite Hini, Hi, Hex, Hresp.
+    change (has_keys P (inner P s)) with (match cprop (co (inner P s)) with Some _ => true | None => false end).
+    rewrite Hcp. cbn [Bool.eqb negb andb Z.eqb EX_IKE_SA_INIT Pos.eqb].
+    unfold process_request. change (B P) with body. cbv zeta. cbn [p_hdr peer_id my_id set_dpd_at inner].
+    rewrite Hid, Hpid, Hex.
+    change (req_is_retransmission 0 0 (my_id P s)) with false. change (req_id_unexpected 0 0 (my_id P s)) with false.
+    change (negb (existsb (Z.eqb EX_IKE_SA_INIT) request_exchanges)) with false. cbv iota.
+    change (handle_request P) with (h_request E).
+    rewrite (h_request_malformed E m (inner P s) Hex Hst Hmal). split; reflexivity.
+  Qed.
+
+  (** a malformed IKE_SA_INIT request (SA, KE or NONCE payload missing) is answered with INVALID_SYNTAX and leaves
+      nothing behind either: old table, no kernel operation, the two draws of IkeSa.__init__ only *)
+  Theorem dispatch_malformed_init_request (ep : endpoint) h my peer m cf spi j rest :
+    h_exch h = EX_IKE_SA_INIT -> h_resp h = false -> h_init h = true -> h_id h = 0 -> p_hdr m = h ->
+    find_conf E ep my peer = Some cf ->
+    ep_tape E ep = D_bytes spi :: D_num j :: rest ->
+    (forall x, In x (table E ep) -> fst x <> next_cid E ep) ->
+    malformed m ->
+    table E (dispatch E ep (Dg h my peer (Some m))) = table E ep
+    /\ ep_kops E (dispatch E ep (Dg h my peer (Some m))) = ep_kops E ep
+    /\ ep_tape E (dispatch E ep (Dg h my peer (Some m))) = rest.
+  Proof.
+    intros Hex Hresp Hini Hid Hm Hconf Htape Hfresh Hmal.
+    pose proof (create_eval ep false (be_encode 8 (Z.to_N (h_spi_i h))) cf my peer spi j rest Htape) as Hc.
+    assert (Hi : dispatch_is_init_request (h_exch h) (negb (h_resp h)) = true) by (rewrite Hex, Hresp; reflexivity).
+    match type of Hc with _ = Some (?e0, ?c0, ?x0) =>
+      pose proof (dispatch_init_request_ended ep h my peer m cf e0 c0 x0 Hi Hconf Hc Hfresh) as Hd;
+      set (ep0 := e0) in *; set (s0 := x0) in * end.
+    cbv zeta in Hd.
+    match type of Hd with state P (fst (process_message P ?s1 m ?t)) = _ -> _ =>
+      destruct (process_message_malformed s1 m t) as [P1 P2] end.
+    - unfold arm. destruct (dispatch_arm_cookie _); reflexivity.
+    - unfold arm. destruct (dispatch_arm_cookie _); reflexivity.
+    - rewrite Hm. exact Hini.
+    - rewrite Hm. exact Hresp.
+    - rewrite Hm. exact Hex.
+    - rewrite Hm. exact Hid.
+    - unfold arm. destruct (dispatch_arm_cookie _); reflexivity.
+    - unfold arm. destruct (dispatch_arm_cookie _); reflexivity.
+    - exact Hmal.
+    - destruct (Hd P1) as (A & B & C). split; [exact A|]. split; [exact B|]. rewrite C, P2. reflexivity.
+  Qed.
+
+  (** ... hence, without any hypothesis on the INITIATOR flag or the Message ID: above the threshold an IKE_SA_INIT
+      request (well-formed triple) that does not carry the correct cookie leaves the table exactly as it was, issues
+      no kernel operation and consumes the two draws of IkeSa.__init__ only - in particular no Diffie-Hellman key pair *)
+  Theorem leaves_no_ike_sa_behind (ep : endpoint) h my peer m cf spi j rest n :
+    h_exch h = EX_IKE_SA_INIT -> h_resp h = false -> p_hdr m = h ->
+    find_conf E ep my peer = Some cf ->
+    ep_tape E ep = D_bytes spi :: D_num j :: rest ->
+    (forall x, In x (table E ep) -> fst x <> next_cid E ep) ->
+    halfopen E (table E ep) + 1 > cookie_threshold ->
+    (has_triple m false n /\ presented m <> Some (cookie_for E (ep_cookie_secret E ep) (h_spi_i h) n peer))
+    \/ malformed m ->
+    table E (dispatch E ep (Dg h my peer (Some m))) = table E ep
+    /\ ep_kops E (dispatch E ep (Dg h my peer (Some m))) = ep_kops E ep
+    /\ ep_tape E (dispatch E ep (Dg h my peer (Some m))) = rest.
+  Proof.
+    intros Hex Hresp Hm Hconf Htape Hfresh Hload Hreq.
+    destruct (h_init h) eqn:Hini.
+    - destruct (Z.eq_dec (h_id h) 0) as [Hid|Hid].
+      + destruct Hreq as [[Htr Hbad]|Hmal].
+        * rewrite (dispatch_cookie_challenge ep h my peer m cf spi j rest n Hex Hresp Hini Hid Hm Hconf Htape Hfresh Hload Htr Hbad).
+          repeat split; reflexivity.
+        * apply (dispatch_malformed_init_request ep h my peer m cf spi j rest Hex Hresp Hini Hid Hm Hconf Htape Hfresh Hmal).
+      + destruct (dispatch_ignored_init_request_leaves_nothing ep h my peer m cf spi j rest Hex Hresp Hm Hconf Htape Hfresh
+                    (or_intror Hid)) as (_ & A & B & C). auto.
+    - destruct (dispatch_ignored_init_request_leaves_nothing ep h my peer m cf spi j rest Hex Hresp Hm Hconf Htape Hfresh
+                  (or_introl Hini)) as (_ & A & B & C). auto.
   Qed.
 End Dispatch.
 
@@ -991,7 +1113,7 @@ Module CookieToy.
     (i, sa_of_core E0 (T.core0 false T.spiR T.spiI (T.conf_R false) 20 10)).
   Definition the_tape : list draw := [D_bytes T.spiR; D_num 1; D_num 16; D_bytes [8; 8; 8]%N; D_dh 14 [6]%N [6]%N].
   Definition ep_n (n : nat) : Endpoint.endpoint E0 :=
-    mk_ep E0 (map entry (seq 0 n)) n [(20, 10, T.conf_R false)] sec the_tape 1000 [] [] None.
+    mk_ep E0 (map entry (seq 0 n)) n [(20, 10, T.conf_R false)] sec the_tape 1000 [] [] None None.
   Definition dgm (m : pmsg body) : datagram := Dg (p_hdr m) 20 10 (Some m).
 
   Lemma ep_n_fresh n x : In x (table E0 (ep_n n)) -> fst x <> next_cid E0 (ep_n n).
@@ -1006,7 +1128,7 @@ Module CookieToy.
     dispatch E0 (ep_n n) (dgm mR1)
     = mk_ep E0 (table E0 (ep_n n)) (S n) [(20, 10, T.conf_R false)] sec
             [D_num 16; D_bytes [8; 8; 8]%N; D_dh 14 [6]%N [6]%N] 1000 []
-            [cookie_datagram (spiZ (be_encode 8 (Z.to_N (h_spi_i (p_hdr mR1))))) (spiZ T.spiR) 0 ck] (Some n).
+            [cookie_datagram (spiZ (be_encode 8 (Z.to_N (h_spi_i (p_hdr mR1))))) (spiZ T.spiR) 0 ck] (Some n) None.
   Proof.
     intros Hload.
     apply (dispatch_cookie_challenge E0 (ep_n n) (p_hdr mR1) 20 10 mR1 (T.conf_R false) T.spiR 1
@@ -1021,7 +1143,7 @@ Module CookieToy.
     dispatch E0 (ep_n 11) (dgm mR1)
     = mk_ep E0 (table E0 (ep_n 11)) 12 [(20, 10, T.conf_R false)] sec
             [D_num 16; D_bytes [8; 8; 8]%N; D_dh 14 [6]%N [6]%N] 1000 []
-            [cookie_datagram (spiZ (be_encode 8 (Z.to_N (h_spi_i (p_hdr mR1))))) (spiZ T.spiR) 0 ck] (Some 11%nat) /\
+            [cookie_datagram (spiZ (be_encode 8 (Z.to_N (h_spi_i (p_hdr mR1))))) (spiZ T.spiR) 0 ck] (Some 11%nat) None /\
     spiZ (be_encode 8 (Z.to_N (h_spi_i (p_hdr mR1)))) = spiZ T.spiI /\
     (* observed directly on the run: 11 entries before and after, the DH key pair still on the tape *)
     length (table E0 (dispatch E0 (ep_n 11) (dgm mR1))) = 11%nat /\
@@ -1057,19 +1179,19 @@ Module CookieToy.
     split; [reflexivity|]. split; [reflexivity|]. vm_compute. reflexivity.
   Qed.
 
-  (** witnesses for [dispatch_ignored_init_request_stays]: Message ID 1, or the INITIATOR flag not set: no reply,
-      and the table has one more half-open entry than before *)
+  (** instances of [dispatch_ignored_init_request_leaves_nothing]: Message ID 1, or the INITIATOR flag not set: no
+      reply, and the table is the old one (11 entries, 11 half-open) - before the fix 73b0c79 it had 12 *)
   Definition with_id (m : pmsg body) (z : Z) : pmsg body :=
     mk_pmsg (mk_hdr (h_spi_i (p_hdr m)) (h_spi_r (p_hdr m)) 2 0 (h_exch (p_hdr m)) (h_resp (p_hdr m)) (h_init (p_hdr m)) z)
             (p_auth m) (p_body m).
   Definition with_init (m : pmsg body) (b : bool) : pmsg body :=
     mk_pmsg (mk_hdr (h_spi_i (p_hdr m)) (h_spi_r (p_hdr m)) 2 0 (h_exch (p_hdr m)) (h_resp (p_hdr m)) b (h_id (p_hdr m)))
             (p_auth m) (p_body m).
-  Example ignored_request_leaves_entry_witness :
+  Example ignored_request_leaves_nothing_witness :
     let a := dispatch E0 (ep_n 11) (dgm (with_id mR1 1)) in
     let b := dispatch E0 (ep_n 11) (dgm (with_init mR1 false)) in
-    ep_sent E0 a = [] /\ length (table E0 a) = 12%nat /\ halfopen E0 (table E0 a) = 12 /\
-    ep_sent E0 b = [] /\ length (table E0 b) = 12%nat /\ halfopen E0 (table E0 b) = 12.
+    ep_sent E0 a = [] /\ length (table E0 a) = 11%nat /\ halfopen E0 (table E0 a) = 11 /\
+    ep_sent E0 b = [] /\ length (table E0 b) = 11%nat /\ halfopen E0 (table E0 b) = 11.
   Proof. vm_compute. repeat split. Qed.
 
   (** (4) end to end: request - COOKIE - retry with the cookie first - accepted - IKE_AUTH verified by the responder
@@ -1108,28 +1230,3 @@ Module CookieToy.
   Proof. vm_compute. repeat split; try reflexivity; eexists; reflexivity. Qed.
 End CookieToy.
 
-(** The clause "leaves no IKE_SA behind" without the two hypotheses on the header (INITIATOR flag set, Message ID 0)
-    is FALSE of the model: witness = the toy request with Message ID 1 over the 11-entry table (all other hypotheses
-    of [dispatch_cookie_challenge] hold; the general statement of what happens is [dispatch_ignored_init_request_stays]). *)
-Theorem leaves_no_ike_sa_behind_unrestricted_refuted :
-  ~ (forall E (ep : Endpoint.endpoint E) h my peer (m : pmsg body) cf spi j rest n,
-        h_exch h = EX_IKE_SA_INIT -> h_resp h = false -> p_hdr m = h ->
-        find_conf E ep my peer = Some cf ->
-        ep_tape E ep = D_bytes spi :: D_num j :: rest ->
-        (forall x, In x (table E ep) -> fst x <> next_cid E ep) ->
-        halfopen E (table E ep) + 1 > cookie_threshold ->
-        has_triple m false n ->
-        presented m <> Some (cookie_for E (ep_cookie_secret E ep) (h_spi_i h) n peer) ->
-        table E (dispatch E ep (Dg h my peer (Some m))) = table E ep).
-Proof.
-  intros Hall.
-  specialize (Hall CookieToy.E0 (CookieToy.ep_n 11) (p_hdr (CookieToy.with_id CookieToy.mR1 1)) 20 10
-                   (CookieToy.with_id CookieToy.mR1 1) (CookieToy.T.conf_R false) CookieToy.T.spiR 1
-                   [D_num 16; D_bytes [8; 8; 8]%N; D_dh 14 [6]%N [6]%N] [7; 7; 7]%N
-                   eq_refl eq_refl eq_refl eq_refl eq_refl (CookieToy.ep_n_fresh 11)).
-  apply (f_equal (@length _)) in Hall.
-  - vm_compute in Hall. discriminate Hall.
-  - vm_compute. reflexivity.
-  - vm_compute. repeat split; discriminate.
-  - vm_compute. discriminate.
-Qed.
